@@ -33,4 +33,49 @@ IsStatus(v) == Len(v) = 3 /\ v[1] \in 49..57 /\ v[2] \in 48..57 /\ v[3] \in 48..
 \* all pseudo fields precede all regular fields, none twice (what a sender must produce, 4.3)
 PseudoFirst(fields) == \A i, j \in DOMAIN fields : (i < j /\ IsPseudo(fields[j])) => IsPseudo(fields[i])
 PseudoOnce(fields) == \A i, j \in DOMAIN fields : (i # j /\ IsPseudo(fields[i])) => fields[i][1] # fields[j][1]
+
+(* ---- the gate of C12: which decoded field sections may reach the application ------------------------------------ *)
+IsDigits3(v) == IsStatus(v)
+HasCtlOrSpace(v) == \E i \in DOMAIN v : v[i] <= 32 \/ v[i] = 127
+FieldBad(f) ==
+    IF IsPseudo(f) THEN
+        \/ f[1] \notin DefinedPseudo
+        \/ ~ValidValue(f[2])
+        \/ (f[1] = N_METHOD /\ ~IsToken(f[2]))
+        \/ (f[1] = N_STATUS /\ ~IsStatus(f[2]))
+        \/ (f[1] = N_PATH /\ HasCtlOrSpace(f[2]))
+    ELSE ~ValidRegularName(f[1]) \/ ~ValidValue(f[2])
+
+\* kind \in {"request", "response", "trailers"}
+MustRefuse(kind, fields) ==
+    \/ \E i \in DOMAIN fields : FieldBad(fields[i])
+    \/ kind = "request" /\
+         \/ ~Has(fields, N_METHOD)
+         \/ LET au == IF Has(fields, N_AUTHORITY) THEN Get(fields, N_AUTHORITY) ELSE <<>>
+                 ho == IF Has(fields, N_HOST) THEN Get(fields, N_HOST) ELSE <<>>
+             IN \/ (au = <<>> /\ ho = <<>>)                                         \* no non-empty authority at all
+                \/ (Has(fields, N_AUTHORITY) /\ Has(fields, N_HOST) /\ au # ho)     \* both present and different
+    \/ kind = "response" /\ ~Has(fields, N_STATUS)
+
+SchemeOk(v) == v \in { <<104, 116, 116, 112>>, <<104, 116, 116, 112, 115>> }
+SimpleAuthority(v) == v # <<>> /\ \A i \in DOMAIN v : v[i] \in (48..57) \cup (97..122) \cup {45, 46}
+SimplePath(v) == v # <<>> /\ v[1] = 47 /\ \A i \in DOMAIN v : v[i] \in (48..57) \cup (97..122) \cup {45, 46, 47, 95}
+\* the fully regular shape: must be delivered, with exactly these parts
+ClearValue(v) == \A i \in DOMAIN v : v[i] \in {9} \cup (32..126) \cup (128..255)
+ClearName(n) == n # <<>> /\ \A i \in DOMAIN n : n[i] \in (48..57) \cup (97..122) \cup {45, 95}
+MustDeliver(kind, fields) ==
+    /\ ~MustRefuse(kind, fields) /\ PseudoFirst(fields) /\ PseudoOnce(fields)
+    /\ \A i \in DOMAIN fields : ClearValue(fields[i][2]) /\ (IsPseudo(fields[i]) \/ ClearName(fields[i][1]))
+    /\ \A i \in DOMAIN fields : ~IsPseudo(fields[i]) => fields[i][1] # N_HOST
+    /\ CASE kind = "request" ->
+              /\ { fields[i][1] : i \in { j \in DOMAIN fields : IsPseudo(fields[j]) } } = {N_METHOD, N_SCHEME, N_AUTHORITY, N_PATH}
+              /\ Get(fields, N_METHOD) \in { <<71, 69, 84>>, <<80, 79, 83, 84>>, <<80, 85, 84>> }
+              /\ SchemeOk(Get(fields, N_SCHEME)) /\ SimpleAuthority(Get(fields, N_AUTHORITY)) /\ SimplePath(Get(fields, N_PATH))
+         [] kind = "response" -> { fields[i][1] : i \in { j \in DOMAIN fields : IsPseudo(fields[j]) } } = {N_STATUS}
+         [] OTHER -> \A i \in DOMAIN fields : ~IsPseudo(fields[i])
+\* http::HeaderMap groups values by name: names in order of first appearance, values of one name in order
+RECURSIVE GroupByName(_)
+GroupByName(fs) == IF fs = <<>> THEN <<>>
+                   ELSE LET n == fs[1][1] IN SelectSeq(fs, LAMBDA f : f[1] = n) \o GroupByName(SelectSeq(fs, LAMBDA f : f[1] # n))
+Classify(kind, fields) == IF MustRefuse(kind, fields) THEN "refuse" ELSE IF MustDeliver(kind, fields) THEN "deliver" ELSE "unconstrained"
 =============================================================================
